@@ -60,6 +60,10 @@ public:
   }
 
 private:
+  // LoggerProvider::GetLogger looks loggers up by the name they were created with (GetName()
+  // reports the no-op logger's name once the scope is disabled).
+  friend class LoggerProvider;
+
   // The name of this logger
   std::string logger_name_;
 
